@@ -774,4 +774,40 @@ V("c16-attr-req-other-entity", "C16", "mdstore.py",
 OK("c16-benign-log", "C16", "mdstore.py",
    "logger.error(\"Unknown system entity: %s\", entity_id)", "logger.warning(\"Unknown system entity: %s\", entity_id)")
 
+# ------------------------------------------------------------------ C17
+V("c17-encrypt-before-sign", "C17", "entity.py",
+  "                if to_sign_assertion:\n                    response = signed_instance_factory(response, self.sec,\n                                                       to_sign_assertion)\n                response = self._encrypt_assertion(encrypt_cert_assertion,\n                                                   sp_entity_id, response)",
+  "                response = self._encrypt_assertion(encrypt_cert_assertion,\n                                                   sp_entity_id, response)\n                if to_sign_assertion:\n                    response = signed_instance_factory(response, self.sec,\n                                                       to_sign_assertion)",
+  rule="R1")
+V("c17-response-signed-before-encrypt", "C17", "entity.py",
+  "                if to_sign_assertion:\n                    response = signed_instance_factory(response, self.sec,\n                                                       to_sign_assertion)\n                response = self._encrypt_assertion(encrypt_cert_assertion,",
+  "                if to_sign_assertion:\n                    response = signed_instance_factory(response, self.sec,\n                                                       to_sign_assertion)\n                if sign:\n                    return signed_instance_factory(response, self.sec, sign_class)\n                response = self._encrypt_assertion(encrypt_cert_assertion,",
+  rule="R1") if False else None
+V("c17-encrypted-result-dropped", "C17", "entity.py",
+  "                response = self._encrypt_assertion(encrypt_cert_assertion,\n                                                   sp_entity_id, response)",
+  "                self._encrypt_assertion(encrypt_cert_assertion,\n                                        sp_entity_id, response)", rule="R1")
+V("c17-clear-copy-kept", "C17", "sigver.py",
+  "    assertion = response.assertion\n    response.assertion = None\n", "    assertion = response.assertion\n", rule="R2")
+V("c17-advice-not-cleared", "C17", "entity.py",
+  "                    _assertion.advice.assertion = []\n", "", rule="R2")
+V("c17-empty-output-ok", "C17", "sigver.py",
+  "        os.unlink(fil)\n        if not output:\n            raise EncryptError(_stderr)\n", "        os.unlink(fil)\n", rule="R3")
+V("c17-encrypt-failure-swallowed", "C17", "entity.py",
+  "        if exception:\n            raise exception\n        return response", "        return response", rule="R3")
+V("c17-decrypted-not-checked", "C17", "response.py",
+  "            for assertion in _enc_assertions:\n                if not self._assertion(assertion, True):\n                    return False\n                else:\n                    self.assertions.append(assertion)",
+  "            for assertion in _enc_assertions:\n                self.assertions.append(assertion)", rule="R4")
+V("c17-decrypted-sig-result-ignored", "C17", "response.py",
+  "                            logger.error(\"Failed to verify signature on '%s'\",\n                                         assertion)\n                            raise SignatureError()",
+  "                            logger.error(\"Failed to verify signature on '%s'\",\n                                         assertion)", rule="R4")
+V("c17-decrypt-returns-empty", "C17", "sigver.py",
+  "                _enctext = self.crypto.decrypt(enctext, key_file, id_attr)\n                if _enctext is not None and len(_enctext) > 0:\n                    return _enctext\n\n        return enctext\n\n    def decrypt(self,",
+  "                _enctext = self.crypto.decrypt(enctext, key_file, id_attr)\n                if _enctext is not None:\n                    return _enctext\n\n        return enctext\n\n    def decrypt(self,",
+  rule="R6")
+V("c17-identity-from-response", "C17", "response.py",
+  "        ava = {}\n        for _assertion in self.assertions:", "        ava = {}\n        for _assertion in (self.assertions or self.response.assertion):",
+  rule="R6")
+OK("c17-benign-log", "C17", "entity.py",
+   'logger.info("REQUEST: %s", msg)', 'logger.debug("REQUEST: %s", msg)')
+
 VARIANTS[:] = [v for v in VARIANTS if v]
